@@ -248,3 +248,60 @@ def is_affine(m) -> bool:
 def rows_of(obj, naxes):
     """array of the object viewed as (..., tensor) for projective comparison"""
     return obj.array
+
+
+MCLASSES = ["projective", "projective", "affine", "shear", "unimodular", "squeeze", "isometry", "origin_fixing"]
+
+
+def class_matrix(v, n, mclass="projective", off=0):
+    """invertible matrix of a given structural class from integer parameters (exact determinant != 0)"""
+    v = [int(x) for x in v]
+    g = lambda i: v[(off + i) % len(v)]  # noqa: E731
+    if mclass == "projective":
+        return int_matrix(v, n, off)
+    m = np.eye(n)
+    k = n - 1
+    if mclass == "affine":
+        m[:k, :k] = int_matrix(v, k, off)
+        m[:k, -1] = [g(20 + i) % 5 - 2 for i in range(k)]
+    elif mclass == "shear":
+        for i in range(k):
+            for j in range(i + 1, k):
+                m[i, j] = g(i * k + j) % 5 - 2
+        if not np.any(m[:k, :k] - np.eye(k)):
+            m[0, 1] = 1
+        m[:k, -1] = [g(20 + i) % 5 - 2 for i in range(k)]
+    elif mclass == "unimodular":
+        lo, up = np.eye(k), np.eye(k)
+        for i in range(k):
+            for j in range(i):
+                lo[i, j] = g(i * k + j) % 3 - 1
+            for j in range(i + 1, k):
+                up[i, j] = g(7 + i * k + j) % 3 - 1
+        if not np.any(up - np.eye(k)):
+            up[0, 1] = 1
+        m[:k, :k] = lo @ up
+        m[:k, -1] = [g(20 + i) % 5 - 2 for i in range(k)]
+    elif mclass == "squeeze":
+        d = [2.0, 0.5] + [1.0] * (k - 2)
+        m[:k, :k] = np.diag(d)
+        if g(3) % 2:
+            m[:k, :k] = m[:k, :k][::-1, ::-1]
+    elif mclass == "isometry":
+        perm = sorted(range(k), key=lambda i: (g(i) % 7, i))
+        for i, j in enumerate(perm):
+            m[i, i] = 0
+        m[:k, :k] = 0
+        for i, j in enumerate(perm):
+            m[i, j] = 1 if g(10 + i) % 2 else -1
+        m[:k, -1] = [g(20 + i) % 5 - 2 for i in range(k)]
+    elif mclass == "origin_fixing":
+        m[:k, :k] = int_matrix(v, k, off)
+        m[-1, :k] = [g(20 + i) % 5 - 2 for i in range(k)]
+        if not np.any(m[-1, :k]):
+            m[-1, 0] = 1
+    else:
+        raise KeyError(mclass)
+    if X.det([[Fraction(x).limit_denominator(16) for x in r] for r in m]) == 0:
+        raise Skip("singular")
+    return m
